@@ -115,6 +115,18 @@ fn cell(idx: u64, rec: &mut Rec) {
     if refused_route {
         rec.cov("route/expect-refused");
     }
+    if idx % 11 == 5 && !refused_route {
+        // an interim 102 / 103 is handed out first (this state treats it like any head without a body); the
+        // caller that wants the real response offers what follows to the same flow, and THAT head decides
+        let interim: &[u8] = if idx % 2 == 0 { b"HTTP/1.1 103 Early Hints\r\nLink: </s.css>; rel=preload\r\n\r\n" } else { b"HTTP/1.1 102 Processing\r\n\r\n" };
+        let mut both = interim.to_vec();
+        both.extend_from_slice(&stream);
+        rec.call();
+        match f.try_response(&both) {
+            Ok((n, Some(r1))) if n == interim.len() && (r1.status().as_u16() == 102 || r1.status().as_u16() == 103) => rec.cov("interim-1xx-handed-out-first"),
+            other => return rec.fail("C06/interim-not-handed-out", format!("{} in front of the head: {:?}", String::from_utf8_lossy(&interim[..24]), other.map(|(n, r)| (n, r.map(|r| r.status().as_u16()))))),
+        }
+    }
     rec.call();
     let r = f.try_response(&stream);
     rec.ev(|| {
